@@ -466,3 +466,19 @@ Proof.
   destruct y as [|b y]; [discriminate|]. cbn [until_lt] in H.
   destruct (String.eqb b "<"); [discriminate|]. inversion H; subst. apply Hy. reflexivity.
 Qed.
+
+Lemma is_cow_true p : is_cow p = true -> path_ident p = Some "Cow".
+Proof.
+  unfold is_cow, cow_case. destruct (path_ident p) as [x|]; [|discriminate].
+  repeat match goal with
+         | |- context [match ?x with _ => _ end] =>
+             match type of x with
+             | string => destruct x
+             | Ascii.ascii => destruct x
+             | bool => destruct x
+             end
+         end; intros H; try discriminate H; reflexivity.
+Qed.
+
+Lemma is_cow_false p : path_ident p <> Some "Cow" -> is_cow p = false.
+Proof. intros H. destruct (is_cow p) eqn:E; [|reflexivity]. apply is_cow_true in E. contradiction. Qed.
